@@ -78,7 +78,9 @@ func (g *G) genStored(focus string) storedSpec {
 	switch g.r.Intn(10) {
 	case 0, 1:
 	case 2:
-		s.maxAge = pick(g, "0", "junk", "-1", "", "1.5", "+5")
+		// (… and digits too many for 64 bits FOLLOWED by something else: not 1*DIGIT, hence invalid — a number parser that
+		// reports "out of range" at the twentieth digit never looks at the rest)
+		s.maxAge = pick(g, "0", "junk", "-1", "", "1.5", "+5", "99999999999999999999x", "18446744073709551617-", "99999999999999999999.5")
 		if s.maxAge == "" {
 			s.maxAge = "0"
 		}
@@ -129,10 +131,10 @@ func (g *G) genStored(focus string) storedSpec {
 		s.flags = append(s.flags, "max-age="+pick(g, "0", "5", "3600", "31536000"))
 	}
 	if g.chance(0.35) {
-		s.swr = pick(g, "0", "1", "5", "10", "60", "3600", "junk", bigNums[g.r.Intn(len(bigNums))])
+		s.swr = pick(g, "0", "1", "5", "10", "60", "3600", "junk", "99999999999999999999x", bigNums[g.r.Intn(len(bigNums))])
 	}
 	if g.chance(0.35) {
-		s.sie = pick(g, "0", "1", "5", "10", "60", "3600", "junk", bigNums[g.r.Intn(len(bigNums))])
+		s.sie = pick(g, "0", "1", "5", "10", "60", "3600", "junk", "99999999999999999999x", bigNums[g.r.Intn(len(bigNums))])
 	}
 	if g.chance(0.15) {
 		s.dateSkew = pick(g, int64(-3600), -10, -1, 1, 10, 3600)
@@ -290,7 +292,7 @@ func (g *G) genReqCC() []string {
 		cc = append(cc, "max-age="+pick(g, "0", "1", "5", "10", "100", "junk", bigNums[g.r.Intn(len(bigNums))]))
 	}
 	if g.chance(0.3) {
-		cc = append(cc, pick(g, "max-stale", "max-stale=0", "max-stale=5", "max-stale=100", "max-stale=junk", "max-stale="+bigNums[g.r.Intn(len(bigNums))]))
+		cc = append(cc, pick(g, "max-stale", "max-stale=0", "max-stale=5", "max-stale=100", "max-stale=junk", "max-stale=99999999999999999999x", "max-stale="+bigNums[g.r.Intn(len(bigNums))]))
 	}
 	if g.chance(0.2) {
 		// (too large to represent: acts as at least 2^31 seconds, it does not wrap around)
